@@ -10,25 +10,87 @@ namespace DX
 abbrev Tok := String
 abbrev Toks := List String
 
-def paren (ts : Toks) : Toks := "(" :: ts ++ [")"]
-def brace (ts : Toks) : Toks := "{" :: ts ++ ["}"]
-def bracket (ts : Toks) : Toks := "[" :: ts ++ ["]"]
-def angle (ts : Toks) : Toks := "<" :: ts ++ [">"]
+/-! ### generated tokens carry their provenance
 
-/-- `::a::b::c` -/
-def absPath (segs : List String) : Toks := segs.flatMap (fun s => ["::", s])
+The templates of the expander are written over `GTok`: a token and *where it comes from*.  A string literal written in
+a template coerces to provenance `lit`; tokens copied from the input are wrapped with `U`; the segments of absolute
+paths, member names and the contents of generated attributes can only be produced through `absPath`, `mem`, `genAttr`.
+`Props/C13.lean` proves that every `lit` token of every expansion is punctuation, a keyword, a primitive type, a literal
+or a `__`-reserved name: the expander never writes a free identifier that a user-chosen name could capture. -/
+
+inductive Prov where
+  /-- copied from the input: types, generics, names, `key` / `by` / default expressions, predicates -/
+  | user
+  /-- written literally in a template -/
+  | lit
+  /-- a segment of an absolute path `::core::…` (written by `absPath` only, always right after `::`) -/
+  | abs
+  /-- a member name: method, associated item, item being defined (after `.`, `::`, `fn`, `type`, or before `=` in a binding) -/
+  | mem
+  /-- inside a generated attribute `#[…]` -/
+  | attr
+deriving Repr, BEq, DecidableEq, Inhabited
+
+structure GTok where
+  s : String
+  p : Prov := .lit
+deriving Repr, BEq, DecidableEq, Inhabited
+
+abbrev GToks := List GTok
+
+instance : Coe String GTok := ⟨fun s => { s }⟩
+
+/-- cons / append on generated tokens as plain functions: the expected type reaches string literals, which coerce
+(`"impl" ::: rest`, `["fn", "fmt"] +++ rest`) -/
+def gcons (a : GTok) (l : GToks) : GToks := a :: l
+def gapp (a b : GToks) : GToks := a ++ b
+infixr:67 " ::: " => gcons
+infixl:65 " +++ " => gapp
+@[simp] theorem gcons_eq (a : GTok) (l : GToks) : (a ::: l) = a :: l := rfl
+@[simp] theorem gapp_eq (a b : GToks) : (a +++ b) = a ++ b := rfl
+
+/-- tokens copied from the input -/
+def U (ts : Toks) : GToks := ts.map fun s => { s, p := .user }
+def u (s : String) : GTok := { s, p := .user }
+/-- a member name -/
+def mem (s : String) : GTok := { s, p := .mem }
+def GToks.strs (ts : GToks) : Toks := ts.map (·.s)
+@[simp] theorem strs_U (ts : Toks) : (U ts).strs = ts := by
+  simp [U, GToks.strs, List.map_map, Function.comp_def]
+
+class OfStr (τ : Type) where
+  ofStr : String → τ
+instance : OfStr String := ⟨id⟩
+instance : OfStr GTok := ⟨fun s => { s }⟩
+
+section
+variable {τ : Type} [OfStr τ]
+local notation "§" s => (OfStr.ofStr s : τ)
+
+def paren (ts : List τ) : List τ := (§"(") :: ts ++ [§")"]
+def brace (ts : List τ) : List τ := (§"{") :: ts ++ [§"}"]
+def bracket (ts : List τ) : List τ := (§"[") :: ts ++ [§"]"]
+def angle (ts : List τ) : List τ := (§"<") :: ts ++ [§">"]
 
 /-- `a , b , c` (no trailing separator) -/
-def sepBy (sep : Tok) : List Toks → Toks
+def sepBy (sep : τ) : List (List τ) → List τ
   | [] => []
   | [x] => x
   | x :: xs => x ++ sep :: sepBy sep xs
 
 /-- `a , b , c ,` (every element terminated) -/
-def termBy (sep : Tok) (xs : List Toks) : Toks := xs.flatMap (fun x => x ++ [sep])
+def termBy (sep : τ) (xs : List (List τ)) : List τ := xs.flatMap (fun x => x ++ [sep])
 
 /-- `#[ … ]` -/
-def attrToks (inner : Toks) : Toks := "#" :: bracket inner
+def attrToks (inner : List τ) : List τ := (§"#") :: bracket inner
+end
+
+/-- `::a::b::c` — the only producer of `abs` tokens -/
+def absPath (segs : List String) : GToks := segs.flatMap (fun s => [("::" : GTok), { s, p := .abs }])
+
+/-- a generated attribute `#[ … ]` — the only producer of `attr` tokens -/
+def genAttr (inner : List String) : GToks :=
+  ("#" : GTok) :: ("[" : GTok) :: (inner.map (fun s => ({ s, p := .attr } : GTok)) ++ [("]" : GTok)])
 
 def isIdentStart (c : Char) : Bool := c.isAlpha || c == '_'
 
